@@ -379,7 +379,7 @@ package core
 //@ func core.Fork.Split property C03 C01
 //@   pure
 //@   opt deterministic on
-//@ func core.Fork.OutParams property C06 C01
+//@ func core.Fork.OutParams property C06 C01 C13
 //@   pure
 //@   opt deterministic on
 
@@ -1332,3 +1332,32 @@ package core
 //@   loop 2 invariant !(isnil(outs0) && ghost(lastreadnil)[self.metadata] == 1 && ghost(mdreads)[self.metadata] > old(ghost(mdreads)[self.metadata]))
 //@   loop 3 invariant !(isnil(outs0) && ghost(lastreadnil)[self.metadata] == 1 && ghost(mdreads)[self.metadata] > old(ghost(mdreads)[self.metadata]))
 //@   loop 4 invariant !(isnil(outs0) && ghost(lastreadnil)[self.metadata] == 1 && ghost(mdreads)[self.metadata] > old(ghost(mdreads)[self.metadata]))
+
+// ---------------------------------------------------------------- C13 the rewritten outputs record keeps every value
+// handleOuts builds the new top-level outputs record: always a record (never nil), in which every
+// output that is not a file or directory keeps exactly its value.  processStructOuts hands that
+// record on even when moving one file failed: an error on one output must not turn the whole
+// record into null.
+//@ iface syntax.Param.IsFile property C13
+//@   pure
+//@   opt deterministic on
+//@ func core.printOutParam property C13
+//@   trusted
+//@   modifies key(ALLOC), key("M$byte")
+//@ func core.Fork.handleOuts property C13
+//@   requires self != nil && self.node != nil && self.node.top != nil
+//@   requires forall j :: 0 <= j && j < len(paramList) ==> paramList[j] != nil
+//@   requires @distinctids forall i, j :: 0 <= i && i < j && j < len(paramList) ==> paramList[i].Id != paramList[j].Id
+//@   ensures @record result.0 != nil
+//@   ensures @passthrough forall j :: 0 <= j && j < len(paramList) && paramList[j].isFile != syntax.KindIsFile && paramList[j].isFile != syntax.KindIsDirectory && has(outs, paramList[j].Id) && outs[paramList[j].Id] != nil ==> has(result.0, paramList[j].Id) && result.0[paramList[j].Id] == outs[paramList[j].Id]
+//@   loop 1 invariant newOuts != nil && fresh(newOuts) && 0 <= iter && iter <= len(paramList)
+//@   loop 1 invariant forall k string :: has(outs, k) == old(has(outs, k)) && outs[k] == old(outs[k])
+//@   loop 1 invariant forall j :: 0 <= j && j < iter && paramList[j].isFile != syntax.KindIsFile && paramList[j].isFile != syntax.KindIsDirectory && has(outs, paramList[j].Id) && outs[paramList[j].Id] != nil ==> has(newOuts, paramList[j].Id) && newOuts[paramList[j].Id] == outs[paramList[j].Id]
+//@   loop 2 invariant newOuts != nil && forall k string :: has(outs, k) == old(has(outs, k)) && outs[k] == old(outs[k])
+//@   loop 2 invariant forall j :: 0 <= j && j < len(paramList) && paramList[j].isFile != syntax.KindIsFile && paramList[j].isFile != syntax.KindIsDirectory && has(outs, paramList[j].Id) && outs[paramList[j].Id] != nil ==> has(newOuts, paramList[j].Id) && newOuts[paramList[j].Id] == outs[paramList[j].Id]
+//@ func core.Fork.processStructOuts property C13
+//@   requires self != nil && self.node != nil && self.node.top != nil && fn(core.Fork.OutParams, self) != nil
+//@   requires forall j :: 0 <= j && j < len(fn(core.Fork.OutParams, self).List) ==> fn(core.Fork.OutParams, self).List[j] != nil
+//@   requires @distinctids forall i, j :: 0 <= i && i < j && j < len(fn(core.Fork.OutParams, self).List) ==> fn(core.Fork.OutParams, self).List[i].Id != fn(core.Fork.OutParams, self).List[j].Id
+//@   loop 1 invariant true
+//@   ensures @recordkept result.0 != nil
